@@ -107,6 +107,8 @@ def _cases(shard):
         thin = draw(st.lists(st.one_of(op('rm', K), op('rm', K), (op('set', K, V) if is_map else op('add', K))),
                              max_size=8))
         cfg = {'fam': fam, 'kind': kind, 'impl': 'c'}
+        if draw(st.integers(0, 2)) == 0:
+            cfg['stored'] = True        # committed + swept: the probe starts on ghosts (allocations while loading)
         if kind in F.TREE_KINDS:
             cfg['sizes'] = sizes
         return {'cfg': cfg, 'build': build + thin, 'probes': draw(st.lists(st.one_of(*probes), min_size=3, max_size=9))}
